@@ -88,6 +88,35 @@ def fam_derived_mesh(ctx, rng):
     check_box(ctx, o)
 
 
+def fam_derived_face(ctx, rng):
+    """faces with holes, polylines and polyfaces obtained from another one by the library's own transforms (after the source answered
+    its box): the box of the result is the box of the result's own vertices"""
+    cls = rng.choice(['Face3D', 'Face3D', 'Polyface3D', 'Polyline3D'])
+    o = Bd.face3d(rng, nholes=rng.choice([1, 2])) if cls == 'Face3D' else Bd.make(rng, cls)
+    if rng.random() < 0.5:
+        o.min, o.max
+    which = rng.choice(['rotate_xy', 'rotate_xy', 'rotate', 'move', 'reflect', 'scale'])
+    try:
+        if which == 'move': r = o.move(V3(G.rvec3(rng, 30)))
+        elif which == 'rotate': r = o.rotate(V3(G.rvec3(rng, 1)), rng.uniform(-3, 3), P3(G.rpt3(rng, 20)))
+        elif which == 'rotate_xy': r = o.rotate_xy(rng.uniform(-3, 3), P3(G.rpt3(rng, 20)))
+        elif which == 'scale': r = o.scale(rng.choice([0.5, 2.0, 3.0]), P3(G.rpt3(rng, 20)))
+        else: r = o.reflect(V3(G.rvec3(rng, 1)).normalize(), P3(G.rpt3(rng, 20)))
+    except Exception as e:
+        ctx.violation('%s:%s:raises' % (cls, which), '%r' % (e,), {'class': cls, 'object': o.to_dict()}); return
+    check_box(ctx, r)
+    if cls == 'Face3D':
+        # the box is that of the outline: every boundary vertex inside it, and the outline touches all six sides
+        mn, mx = r.min, r.max
+        bs = list(r.boundary)
+        sc = max(1.0, max(abs(c) for p in bs for c in p))
+        for i, nm in enumerate('xyz'):
+            lo, hi = min(p[i] for p in bs), max(p[i] for p in bs)
+            if abs(lo - mn[i]) > 1e-9 * sc or abs(hi - mx[i]) > 1e-9 * sc:
+                ctx.violation('Face3D:%s:boundary_box' % which, 'after %s the boundary spans [%r, %r] along %s, the box says [%r, %r]' % (which, lo, hi, nm, mn[i], mx[i]),
+                              {'class': cls, 'object': o.to_dict(), 'transform': which}); return
+
+
 def fam_near_axis(ctx, rng):
     """cylinders, cones and full 3D circles whose axis / normal is within a few 1e-4 rad of a world axis without being aligned with it,
     and large ones (radius up to 5000 at coordinates up to 1e4) in general position"""
@@ -184,7 +213,7 @@ def fam_arc_grid(ctx, rng):
 def fam_collections(ctx, rng):
     n = rng.randint(1, 8)
     d3 = rng.random() < 0.5
-    pool3 = ['Polyline3D', 'Face3D', 'Polyface3D', 'Mesh3D', 'LineSegment3D', 'LineSegment3D']
+    pool3 = ['Polyline3D', 'Face3D', 'Face3D', 'Polyface3D', 'Mesh3D', 'LineSegment3D']
     pool2 = ['Polygon2D', 'Polyline2D', 'Mesh2D', 'LineSegment2D']
     verts_of = lambda o: o.vertices if hasattr(o, 'vertices') else (o.p1, o.p2)
     objs = [Bd.make(rng, rng.choice(pool3 if d3 else pool2)) for _ in range(n)]
@@ -359,7 +388,7 @@ def fam_overlap_exact(ctx, rng):
             ax, {'equal': 'exactly', 'below': 'just below', 'above': 'just above'}[case], dist, [float(g) for g in gaps], exp, r1, r2), desc)
 
 
-FAMILIES = [(fam_boxes, 150), (fam_derived_mesh, 40), (fam_near_axis, 60), (fam_arc_grid, 80), (fam_collections, 30), (fam_mixed, 30), (fam_overlap, 70), (fam_overlap_exact, 60)]
+FAMILIES = [(fam_boxes, 150), (fam_derived_mesh, 40), (fam_derived_face, 50), (fam_near_axis, 60), (fam_arc_grid, 80), (fam_collections, 60), (fam_mixed, 30), (fam_overlap, 70), (fam_overlap_exact, 60)]
 
 
 def explore(ctx):
